@@ -4,6 +4,7 @@ import NibabelModel.Model.C06Py
 import NibabelModel.Generated.C06Funcs
 import Driver.Util
 namespace Nb.Drv.C06
+open Nb.Py
 open Nb Nb.C06
 
 def parseItem? (s : String) : Option IdxItem :=
@@ -120,6 +121,42 @@ def handle : List String → String
             | some h => showM (Gen.C06F.optimize_read_slicers a b c (liftH h))
             | none => "bad-op"
       | _, _, _ => "bad-op"
+  -- the operators of Basic/PyVal (the semantics of the translated Python fragment) against CPython itself
+  | ["pyop", op, a] =>
+      match parseVL? a with
+      | some a =>
+          if op = "neg" then showM (V.neg a) else if op = "abs" then showM (V.abs a)
+          else if op = "int" then showM (V.toInt a) else if op = "len" then showM (V.len a)
+          else if op = "reversed" then showM (V.reversed a) else if op = "enumerate" then showM (V.enumerate a)
+          else if op = "truthy" then (match V.truthy a with | .ok b => showV (.bool b) | .error e => showErr e)
+          else if op = "list" then showM (V.asList a)
+          else "bad-op"
+      | none => "bad-op"
+  | ["pyop", op, a, b] =>
+      match parseVL? a, parseVL? b with
+      | some a, some b =>
+          if op = "add" then showM (V.add a b) else if op = "sub" then showM (V.sub a b)
+          else if op = "mul" then showM (V.mul a b) else if op = "floordiv" then showM (V.floordiv a b)
+          else if op = "mod" then showM (V.mod a b)
+          else if op = "ceildiv" then showM (do V.toInt (← V.npCeil (← V.truediv a b)))
+          else if op = "truncdiv" then showM (do V.toInt (← V.truediv a b))
+          else if op = "divisible" then showM (do let q ← V.truediv a b; pure (.bool (V.pyEq (← V.toInt q) q)))
+          else if op = "lt" then showM (V.lt a b) else if op = "le" then showM (V.le a b)
+          else if op = "eq" then showV (.bool (V.pyEq a b))
+          else if op = "min" then showM (V.min2 a b) else if op = "max" then showM (V.max2 a b)
+          else if op = "getitem" then showM (V.getItem a b) else if op = "dropfrom" then showM (V.dropFrom a b)
+          else if op = "append" then showM (V.append a b) else if op = "extend" then showM (V.extend a b)
+          else if op = "contains" then (match V.contains a b with | .ok r => showV (.bool r) | .error e => showErr e)
+          else if op = "indices" then showM (V.sliceIndices a b)
+          else "bad-op"
+      | _, _ => "bad-op"
+  | ["pyop", op, a, b, c] =>
+      match parseVL? a, parseVL? b, parseVL? c with
+      | some a, some b, some c =>
+          if op = "setitem" then showM (V.setItem a b c) else if op = "range" then showM (V.pyRange a b c)
+          else "bad-op"
+      | _, _, _ => "bad-op"
+  | ["strin", a, b] => showV (.bool (V.strIn (if a = "-" then "" else a) (if b = "-" then "" else b)))
   | ["gen", "is_fancy", a] =>
       match parseVL? a with
       | some a => showM (Gen.C06F.is_fancy a)
